@@ -141,3 +141,13 @@ void enumerate(const Emit& emit, const std::string&) {
     for (int k = 1; k < d; k++) emit({db, 5, 0, (uint8_t)(k - 1)});
   }
 }
+
+// fixed finding 61be2fb: NegProjector(d,k) had k-1 ones
+void regressions() {
+  for (int d = 2; d <= 6; d++) for (int k = 0; k < d; k++) {
+    SU_vector P = SU_vector::NegProjector(d, k);
+    std::vector<ld> diag(d, 0); for (int i = d - k; i < d; i++) diag[i] = 1;
+    expect_diag(P, d, diag, "NegProjector", TOL);
+    if (k > 0) { SU_vector S = SU_vector::PosProjector(d, d - k) + P; expect_diag(S, d, std::vector<ld>(d, 1), "complement", 4 * TOL); }
+  }
+}
